@@ -120,6 +120,9 @@ impl ParquetTable {
             max_i64: Option<i64>,
             null_count: Option<u64>,
             has_int_stats: bool,
+            /// Some chunk that may hold values gave no min/max: the merged
+            /// bounds of the other chunks do not bound the column.
+            minmax_unknown: bool,
         }
 
         let mut total_rows: usize = 0;
@@ -152,11 +155,16 @@ impl ParquetTable {
                         max_i64: None,
                         null_count: Some(0),
                         has_int_stats: false,
+                        minmax_unknown: false,
                     });
 
                     let Some(stats) = col_chunk.statistics() else {
-                        // A chunk without stats poisons null_count accuracy.
+                        // A chunk without stats poisons null_count accuracy
+                        // AND the min/max bounds: its values are unseen.
                         acc.null_count = None;
+                        if rg.num_rows() > 0 {
+                            acc.minmax_unknown = true;
+                        }
                         continue;
                     };
 
@@ -181,6 +189,14 @@ impl ParquetTable {
                         acc.has_int_stats = true;
                         acc.min_i64 = Some(acc.min_i64.map_or(min, |m| m.min(min)));
                         acc.max_i64 = Some(acc.max_i64.map_or(max, |m| m.max(max)));
+                    } else if matches!(
+                        stats,
+                        ParquetStatistics::Int64(_) | ParquetStatistics::Int32(_)
+                    ) && stats.null_count_opt() != Some(rg.num_rows() as u64)
+                    {
+                        // Integer chunk with statistics but no min/max that is
+                        // not known to be all-NULL: bounds unknown.
+                        acc.minmax_unknown = true;
                     }
                 }
             }
@@ -249,7 +265,13 @@ impl ParquetTable {
 
         let column_stats = cols
             .into_iter()
-            .map(|(name, acc)| {
+            .map(|(name, mut acc)| {
+                if acc.minmax_unknown {
+                    // Report no bounds rather than bounds of a subset.
+                    acc.min_i64 = None;
+                    acc.max_i64 = None;
+                    acc.has_int_stats = false;
+                }
                 let non_null = acc
                     .null_count
                     .map(|n| (total_rows as u64).saturating_sub(n))
